@@ -104,6 +104,7 @@ type Result struct {
 	CrossChecked   int64 // unsat answers re-posed to the other solvers
 	CrossDisagree  int64
 	PathsRechecked int64 // completed paths whose final path condition was re-checked satisfiable
+	SolverErrors   int64 // (error ...) answers of incremental sessions (the query goes to the portfolio, the session is discarded)
 	SolverHangs    int64 // incremental sessions killed by the watchdog (solver ignored its time limit) and restarted
 	FreshRetries   int64 // queries re-posed to fresh solver processes after an incremental unknown
 	FreshDecided   int64
@@ -351,12 +352,18 @@ func (p *path) resync() {
 	p.sv.log = savedLog
 }
 
-func (p *path) check(g string) string {
-	r := p.checkHungSafe(g)
-	if r == "unknown" && !p.sv.hungJustRestarted {
+// ensureFresh restarts a session that timed out or printed an error before it is used again.
+func (p *path) ensureFresh() {
+	if p.sv.stale {
 		p.resync()
 	}
+}
+
+func (p *path) check(g string) string {
+	p.ensureFresh()
+	r := p.checkHungSafe(g)
 	p.sv.hungJustRestarted = false
+	p.ensureFresh()
 	if r == "unknown" {
 		r = p.solveFresh(g)
 	}
@@ -577,9 +584,8 @@ func Explore(cfg Config) *Result {
 			defer func() {
 				atomic.AddInt64(&res.Queries, sv.queries)
 				atomic.AddInt64(&res.SolverNanos, sv.nanos)
-				if sv.errs > 0 {
-					ex.inconclusive(fmt.Sprintf("solver printed %d error answers", sv.errs))
-				}
+				// error answers are counted; each one made the session stale, i.e. it was discarded before its next use
+				atomic.AddInt64(&res.SolverErrors, sv.errs)
 				sv.close()
 			}()
 			funcs := map[string]int64{}
@@ -741,6 +747,7 @@ func (ex *explorer) runPath(sv *solver, prefix []int32, funcs, intr, stubs map[s
 	}
 	// vacuity / soundness guard: the path condition of a completed path must be satisfiable
 	if len(p.pc) > 0 {
+		p.ensureFresh()
 		switch p.sv.checkSat() {
 		case "unsat":
 			ex.inconclusive(fmt.Sprintf("completed path has an unsatisfiable path condition (executor or solver error) [decisions %v]", p.decisions))
@@ -780,6 +787,9 @@ func (p *path) model() ([]NDValue, bool) {
 	vals := map[string]string{}
 	p.modelFromFresh = false
 	if len(names) > 0 {
+		if p.sv.depth <= 1 {
+			p.ensureFresh() // (not inside an assertion's scope: that scope would be lost)
+		}
 		r := p.sv.checkSat()
 		if r == "unsat" {
 			p.ex.inconclusive(fmt.Sprintf("path condition became unsatisfiable (executor error) [decisions %v]", p.decisions))
